@@ -3,6 +3,7 @@ CONSTANTS
   CfgChoices <- CfgsC01
   CtrlChoices <- CtrlsC01
   MethodChoices <- MethodsC01
+  TypeChoices <- NoTypes
   MaxCtrls = 2
   MaxMethods = 2
   SortBeforeReduce = TRUE
